@@ -19,7 +19,7 @@ ID = "C14"
 ENGINE = "renderworld"
 SHRINK_LISTS = ("ops",)
 WATCH_FILES = ("ak/color.py", "ak/ppobj.py", "ak/hdoc.py", "ak/ghist.py")
-REQUIRED_PROBES = ("deliveries", "late_resolutions", "explicit_wins", "checks", "global_checks", "synced_checks")
+REQUIRED_PROBES = ("deliveries", "late_resolutions", "explicit_wins", "checks", "global_checks", "synced_checks", "held_checks")
 
 REAL_VS_STUB = {'real': ['ak.color (parser, incremental resolution, palettes, global/synced palettes), component palettes of ak.ppobj / ak.hdoc / ak.ghist'], 'stub': ['nothing of the package; synthetic component classes are created with type(); process-global state -> fresh forked process per run; reference report in a pristine forked process']}
 
@@ -183,8 +183,8 @@ def generate(rng, tier):
             ops.append({"op": "global_other"})
         elif r < 0.62 and synced_cands:
             ops.append({"op": "synced", "comp": rng.choice(synced_cands)})
-        elif r < 0.70:
-            ops.append({"op": "get_palette"})
+        elif r < 0.74:
+            ops.append({"op": "get_palette", "comp": rng.choice(synced_cands) if synced_cands and rng.random() < 0.4 else None})
         ops.append(d)
         if rng.random() < 0.15:
             # the same component again: registration must be idempotent
@@ -276,6 +276,7 @@ class World:
         self.quarantine = set()
         self.used = []          # components registered in M (names)
         self.synced = []        # [(name, palette)]
+        self.held = []          # palettes obtained earlier and kept: [(palette, comp name | None, {id: style then})]
         self.delivered_log = []  # canonical record of what M received: [("comp", name) | ("batch", items)]
 
     # -- helpers
@@ -428,6 +429,45 @@ class World:
                     continue
                 self.compare(self.decode(f, f"{name}(conf).{acc}", sid), reg.style(sid, nc),
                              "component-palette", sid, f"(accessor {name}.{acc})")
+
+    def hold(self, conf, reg, name=None):
+        """obtain a palette from the configuration now and keep it: whatever becomes global later, it goes on
+        showing this configuration (as it was when the palette was obtained, or as it is now)"""
+        nc = self.no_color
+        pal = self.sut("get_palette", conf.get_palette) if name is None else self.sut(f"{name}(conf)", self.cls(name), conf)
+        ids = sorted(set(reg.items) | {"NOPE.H"})
+        then = {sid: reg.style(sid, nc) for sid in ids}
+        if len(self.held) >= 4:
+            self.held.pop(0)
+        self.held.append((pal, name, then))
+        self.stats["held"] = self.stats.get("held", 0) + 1
+
+    def check_held(self, reg):
+        nc = self.no_color
+        for pal, name, then in self.held:
+            if name is None:
+                pairs = [(sid, None) for sid in list(then)[:: max(1, len(then) // 5)]] + \
+                        [(sid, acc) for acc, sid in GLOBAL_ACCESSORS.items()]
+            else:
+                pairs = [(sid, acc) for acc, sid in self.accessors(name).items()]
+            for sid, acc in pairs:
+                if sid in self.quarantine or self.touches_quarantine(reg, sid):
+                    continue
+                if acc is None:
+                    f = pal[sid]
+                else:
+                    f = self.accessor(pal, name, acc) if name else getattr(pal, acc)
+                    if f is None:
+                        continue
+                got = self.decode(f, "held-palette", sid)
+                was = then.get(sid, then.get("NOPE.H"))
+                now = reg.style(sid, nc)
+                self.stats["held_checks"] = self.stats.get("held_checks", 0) + 1
+                if got != was and got != now:
+                    raise Violation("resolve", "held-palette:wrong-style",
+                                    f"a palette obtained from the configuration earlier ({name or 'get_palette()'}) gives "
+                                    f"{fmt_style(got)} for id {sid!r}; the configuration said {fmt_style(was)} then and says "
+                                    f"{fmt_style(now)} now")
 
     def touches_quarantine(self, reg, sid):
         if not self.quarantine:
@@ -624,11 +664,12 @@ def execute(trace, rng):
                     w.stats["synced_created"] += 1
                 w.deliver_comp(regG, name, g_registered)
             elif k == "get_palette":
-                w.sut("get_palette", M.get_palette)
+                w.hold(M, regM, op.get("comp") if op.get("comp") in w.used else None)
             else:
                 continue
             log.add("op", n, k, op.get("comp"))
             w.check_conf(M, regM, w.used, "M")
+            w.check_held(regM)
             if glabel == "tainted":
                 continue
             if G is not M:
